@@ -22,6 +22,8 @@ def obligations(tier):
     obs += so.split('res', 2, 'HTTP/1.1 2dd x\r\ny', cuts=(4, 9, 12, 15, 16), nostd=True, nohdr=True)
     c6 = __import__('C06').obligations('quick')
     obs += [o for o in c6 if '.chunked.' in o.name]
+    # compressed bodies: the decompression glue must see the same stream however the compressed bytes are cut (C07 glue obligations: .lzma header split, flow over two calls)
+    obs += [o for o in __import__('C07').obligations('quick') if o.name.startswith('glue.s2.') or o.name.startswith('glue.s3.L3_2')]
     if tier == T:
         obs += so.split('req', 1, 'x:x\r\n x\r\n\r\n', cuts=(1, 2, 7, 9, 10), tier=T)
         obs += so.split('req', 3, 'GET x\r\n', cuts=(2, 5), tier=T)
